@@ -283,6 +283,106 @@ def child_random(case):
     return out
 
 
+class _Pause:
+    def __await__(self):
+        yield self
+
+
+def child_overlap(case):
+    '''Random words in which notify() really suspends: the hand-over of one source may arrive while the notification issued by
+    the other source's hand-over is still in flight (the two sources are separate tasks; each is sequential in itself).'''
+    from electrumx.server.controller import Notifications as cls
+    rng = random.Random(case['seed'])
+    out = {'evaluations': 0, 'counters': {'overlap_words': 0, 'handovers_while_a_notification_was_in_flight': 0, 'joins': 0, 'notifications': 0,
+                                          'handovers': 0}, 'sigs': [], 'violations': []}
+    c = out['counters']
+    seen = set()
+    for i in range(case['n']):
+        mon = NotifMonitor()
+        obj = cls()
+
+        async def notify(height, touched, mon=mon):
+            mon.on_notify(height, touched)
+            if mon.in_start:
+                return
+            await _Pause()
+        db = START_H
+        db_since_mp = {START_H}
+        tok = 1
+        mon.on_db_height(db)
+        mon.before_handover('mp', START_H, [tok])
+        drive(obj.on_mempool({tok}, START_H))
+        mon.after_handover()
+        mon.on_start(START_H)
+        drive(obj.start(START_H, notify))
+        mon.started()
+        mon.after_handover()
+        blocked = {}          # source -> suspended coroutine
+        word = []
+
+        def step(src, co):
+            try:
+                co.send(None)
+            except StopIteration:
+                blocked.pop(src, None)
+                mon.after_handover()
+                return
+            blocked[src] = co
+        for _ in range(rng.randrange(6, case['maxlen'])):
+            ops = [('F', x) for x in WINDOW if x != db]
+            if 'bp' not in blocked:
+                ops += [('B', x) for x in WINDOW] + [('b', x) for x in WINDOW]
+            else:
+                ops += [('Rb', 0)] * 4
+            if 'mp' not in blocked:
+                ops += [('M', db), ('M', db), ('m', db)] + [('L', x) for x in sorted(db_since_mp) if x != db]
+            else:
+                ops += [('Rm', 0)] * 4
+            op = rng.choice(ops)
+            word.append(op)
+            kind, x = op
+            if kind == 'F':
+                db = x
+                db_since_mp.add(x)
+                mon.on_db_height(x)
+            elif kind in ('Rb', 'Rm'):
+                src = 'bp' if kind == 'Rb' else 'mp'
+                step(src, blocked[src])
+            else:
+                toks = []
+                if kind.isupper():
+                    tok += 1
+                    toks = [tok]
+                if blocked:
+                    c['handovers_while_a_notification_was_in_flight'] += 1
+                if kind in 'Bb':
+                    db = x
+                    db_since_mp.add(x)
+                    mon.on_db_height(x)
+                    mon.before_handover('bp', x, toks)
+                    step('bp', obj.on_block(set(toks), x))
+                else:
+                    mon.before_handover('mp', x, toks)
+                    step('mp', obj.on_mempool(set(toks), x))
+                    db_since_mp = {db}
+            if mon.violations:
+                break
+        for co in blocked.values():
+            co.close()
+        out['evaluations'] += 1
+        c['overlap_words'] += 1
+        c['joins'] += mon.joins
+        c['notifications'] += mon.notifs
+        c['handovers'] += mon.step
+        if mon.violations:
+            key, what = mon.violations[0]
+            if key not in seen:
+                seen.add(key)
+                out['violations'].append({'key': 'overlap/' + key, 'what': f'{what}; word={word}', 'witness': {'overlap_word': word, 'seed': case['seed']}})
+    out['sigs'] = [digest(('overlap', case['seed']))]
+    return out
+
+
 def replay_word(word, pre=True):
     from electrumx.server.controller import Notifications as cls
     node = Node(cls, pre)
@@ -296,6 +396,10 @@ def run(tier, seed, replay=None):
     if replay:
         import json
         body = json.load(open(replay))
+        if 'overlap_word' in body['witness']:
+            r = child_overlap({'seed': body['witness']['seed'], 'n': 8000, 'maxlen': 30})
+            print('replay (overlap batch of that seed):', [v_['key'] for v_ in r['violations']] or 'no violation')
+            return 1 if r['violations'] else 0
         v = replay_word(body['witness']['word'], body['witness'].get('pre', True))
         print('replay:', body['witness']['word'], '->', v or 'no violation')
         return 1 if v else 0
@@ -318,6 +422,8 @@ def run(tier, seed, replay=None):
     rep.absorb(run_cases(child_dfs, cases, watchdog=1800), 'dfs')
     rcases = [{'seed': seed * 65537 + i, 'n': 4000 if thorough else 600, 'maxlen': 40 if thorough else 26, 'empties': i % 2 == 1} for i in range(32)]
     rep.absorb(run_cases(child_random, rcases, watchdog=1800), 'random')
+    ocases = [{'seed': seed * 92821 + i, 'n': 8000 if thorough else 1500, 'maxlen': 30 if thorough else 20} for i in range(32)]
+    rep.absorb(run_cases(child_overlap, ocases, watchdog=1800), 'overlap')
     # (2) the same monitor on real hand-over traces of the full server, and membership of those traces in the environment model
     from exv.props.c07 import gen_cases
     from exv.sysscen import child as sys_child
@@ -345,6 +451,7 @@ def run(tier, seed, replay=None):
                 'meaning': 'F=flush only to x, B=flush+on_block({token},x), M=on_mempool({token}) at the DB height, '
                            'L=on_mempool at a height the DB passed since the last refresh (lagging refresh); lower case = the same with an empty set'})
     rep.floor('words', rep.counters['words'], 100000)
+    rep.floor('handovers_while_a_notification_was_in_flight', rep.counters['handovers_while_a_notification_was_in_flight'], 20000)
     rep.floor('words_with_empty_handovers', rep.counters['words_with_empty_handovers'], 50000)
     rep.floor('joins', rep.counters['joins'], 10000)
     rep.floor('notifications', rep.counters['notifications'], 10000)
@@ -356,7 +463,8 @@ def run(tier, seed, replay=None):
              'spendable output); online monitor: '
              '(a) notify(h) only after on_mempool(h) and on_block(h)/start(h); (b) at every join step (latest block report, '
              'latest refresh and DB height all equal) every token handed over at or before the earlier of the two latest '
-             'reports is in some notification. Plus random words up to length 40, and the same monitor attached to the real hand-over traces '
+             'reports is in some notification. Plus random words up to length 40, random words in which notify() really suspends so that one '
+             'source hands over while the notification issued for the other is in flight, and the same monitor attached to the real hand-over traces '
              'of full-server runs, each real hand-over also checked for membership in the environment model. distinct = explored subtrees (2-op prefixes) '
              '+ random batches; words counted in monitor_counters',
         assumptions=['environment model: on_block only right after a flush to that height; on_mempool only at a height the '
